@@ -10,6 +10,7 @@ import (
 	"sort"
 	"strconv"
 	"strings"
+	"sync"
 	"time"
 
 	"verif/engine/sym"
@@ -133,8 +134,8 @@ func pathKey(p *sym.ConcPath) string {
 type concModel struct {
 	sp    *concSpec
 	T, K  int
-	paths []*sym.ConcPath // every thread may run any of these
-	tplOf []string
+	paths [][]*sym.ConcPath // paths[t]: the traces of the template thread t runs
+	tplOf []string          // tplOf[t]: that template's name
 	// state variables
 	fields map[string]string // shared field -> sort
 	wgs    []string
@@ -165,16 +166,24 @@ func uniqAdd(l *[]string, s string) {
 	*l = append(*l, s)
 }
 
-func buildConcModel(sp *concSpec, tpls []*concTemplate, T int) *concModel {
+func buildConcModel(sp *concSpec, tpls []*concTemplate, assign []int) *concModel {
+	T := len(assign)
 	m := &concModel{sp: sp, T: T, fields: map[string]string{}}
-	maxLen := 0
-	for _, t := range tpls {
+	for _, ti := range assign {
+		t := tpls[ti]
+		m.paths = append(m.paths, t.Paths)
+		m.tplOf = append(m.tplOf, t.Name)
+		maxLen := 0
 		for _, p := range t.Paths {
-			m.paths = append(m.paths, p)
-			m.tplOf = append(m.tplOf, t.Name)
 			if len(p.Events) > maxLen {
 				maxLen = len(p.Events)
 			}
+		}
+		m.K += maxLen // every complete interleaving of the longest traces fits
+	}
+	// state variables: from all templates, so that every query has the same shape
+	for _, t := range tpls {
+		for _, p := range t.Paths {
 			for _, e := range p.Events {
 				switch e.Kind {
 				case "rd":
@@ -182,6 +191,9 @@ func buildConcModel(sp *concSpec, tpls []*concTemplate, T int) *concModel {
 				case "wr":
 					if _, ok := m.fields[smtName(e.Field)]; !ok {
 						m.fields[smtName(e.Field)] = "Bool"
+					}
+					if _, err := strconv.Atoi(e.Val); err == nil {
+						m.fields[smtName(e.Field)] = "Int"
 					}
 				case "wg_add", "wg_wait":
 					uniqAdd(&m.wgs, smtName(e.Field))
@@ -195,17 +207,6 @@ func buildConcModel(sp *concSpec, tpls []*concTemplate, T int) *concModel {
 			}
 		}
 	}
-	// a written field whose sort is only known from writes of Int constants
-	for _, p := range m.paths {
-		for _, e := range p.Events {
-			if e.Kind == "wr" && e.Val != "true" && e.Val != "false" && !strings.Contains(e.Val, "rd_") && !strings.Contains(e.Val, "hv_") {
-				if _, err := strconv.Atoi(e.Val); err == nil {
-					m.fields[smtName(e.Field)] = "Int"
-				}
-			}
-		}
-	}
-	m.K = T * maxLen
 	return m
 }
 
@@ -296,13 +297,13 @@ func (m *concModel) smt() string {
 	}
 	for t := 0; t < T; t++ {
 		w("(declare-const p_%d Int)", t)
-		w("(assert (and (>= p_%d 0) (< p_%d %d)))", t, t, len(m.paths))
+		w("(assert (and (>= p_%d 0) (< p_%d %d)))", t, t, len(m.paths[t]))
 		w("(assert (= pc_%d_0 0))", t)
 		w("(assert (not st_%d_0))", t)
 		for _, f := range fl {
 			w("(assert (not FL_%s_%d_0))", f, t)
 		}
-		for p, path := range m.paths {
+		for p, path := range m.paths[t] {
 			var names []string
 			for s := range path.Syms {
 				names = append(names, s)
@@ -324,9 +325,11 @@ func (m *concModel) smt() string {
 	for i := 0; i+1 < K; i++ {
 		w("(assert (=> (= sched_%d %d) (= sched_%d %d)))", i, T, i+1, T)
 	}
-	// symmetry: threads are interchangeable
+	// symmetry: threads running the same template are interchangeable
 	for t := 0; t+1 < T; t++ {
-		w("(assert (<= p_%d p_%d))", t, t+1)
+		if m.tplOf[t] == m.tplOf[t+1] {
+			w("(assert (<= p_%d p_%d))", t, t+1)
+		}
 	}
 	for i := 0; i < K; i++ {
 		// idle step
@@ -345,7 +348,7 @@ func (m *concModel) smt() string {
 			w("(assert (=> (not (= sched_%d %d)) (and %s)))", i, t, strings.Join(keep, " "))
 			// scheduled: one of the alternatives
 			var alts []string
-			for p, path := range m.paths {
+			for p, path := range m.paths[t] {
 				for k, e := range path.Events {
 					alts = append(alts, m.alt(t, p, k, i, e, path, g, fl))
 				}
@@ -357,7 +360,7 @@ func (m *concModel) smt() string {
 	for i := 0; i <= K; i++ {
 		for t := 0; t < T; t++ {
 			var fin, en []string
-			for p, path := range m.paths {
+			for p, path := range m.paths[t] {
 				fin = append(fin, fmt.Sprintf("(and (= p_%d %d) (= pc_%d_%d %d))", t, p, t, i, len(path.Events)))
 				for k, e := range path.Events {
 					// enabled = not blocked (a read, or the outcome of Once.Do, never blocks: it selects the trace)
@@ -570,10 +573,29 @@ func runConc(ld *loaded, sp *concSpec, pkgDir string, tier tierCfg, known []*sym
 	obligations, discharged := 0, 0
 	var bounds []map[string]interface{}
 	exit := 0
-	for n := 2; n <= T; n++ {
-		m := buildConcModel(sp, tpls, n)
+	type job struct {
+		n      int
+		assign []int
+	}
+	type jobResult struct {
+		cexs                                  []*concCex
+		notes                                 []string
+		queries, unsat, sat, unknown          int
+		obligations, discharged, steps, bytes int
+		solverTime                            float64
+		lines                                 []string
+	}
+	runJob := func(j job, timeoutS int) *jobResult {
+		jr := &jobResult{}
+		n := j.n
+		m := buildConcModel(sp, tpls, j.assign)
 		base := m.smt()
-		bounds = append(bounds, map[string]interface{}{"threads": n, "steps": m.K, "paths_per_thread": len(m.paths), "smt_bytes": len(base)})
+		jr.steps, jr.bytes = m.K, len(base)
+		var names []string
+		for _, a := range j.assign {
+			names = append(names, strings.TrimPrefix(tpls[a].Name, "VerifC09Thread"))
+		}
+		label := strings.Join(names, "+")
 		var vals []string
 		for i := 0; i < m.K; i++ {
 			vals = append(vals, fmt.Sprintf("sched_%d", i))
@@ -588,59 +610,82 @@ func runConc(ld *loaded, sp *concSpec, pkgDir string, tier tierCfg, known []*sym
 		ask := func(name, q string, want []string) smtResult {
 			var res smtResult
 			for si, sv := range solvers {
-				r := runSMT(base+q, want, filepath.Join(outDir, fmt.Sprintf("conc_%dthr_%s.smt2", n, name)), sv, 600)
-				queries++
-				solverTime += r.secs
-				fmt.Printf("  query %-28s threads=%d steps=%d solver=%s: %s (%.1fs)\n", name, n, m.K, sv, r.status, r.secs)
+				r := runSMT(base+q, want, filepath.Join(outDir, fmt.Sprintf("conc_%s_%s.smt2", label, name)), sv, timeoutS)
+				jr.queries++
+				jr.solverTime += r.secs
+				jr.lines = append(jr.lines, fmt.Sprintf("  query %-22s %-40s steps=%d solver=%s: %s (%.1fs)", name, label, m.K, sv, r.status, r.secs))
 				if si == 0 {
 					res = r
 				} else if r.status != res.status && (r.status == "sat" || r.status == "unsat") && (res.status == "sat" || res.status == "unsat") {
-					notes = append(notes, fmt.Sprintf("SOLVER DISAGREEMENT on %s: %s vs %s", name, res.status, r.status))
+					jr.notes = append(jr.notes, fmt.Sprintf("SOLVER DISAGREEMENT on %s %s: %s vs %s", label, name, res.status, r.status))
 					res.status = "unknown"
+				} else if res.status != "sat" && res.status != "unsat" && (r.status == "sat" || r.status == "unsat") {
+					res = r // the second solver decided what the first could not
 				}
 			}
 			switch res.status {
 			case "sat":
-				sat++
+				jr.sat++
 			case "unsat":
-				unsat++
+				jr.unsat++
 			default:
-				unknown++
+				jr.unknown++
 			}
 			return res
 		}
-		// vacuity witnesses: every thread can finish with no violation; every expected mark is reachable
-		var allFin []string
+		// vacuity witness: every thread can finish with no violation
+		// (a thread that waits for a signal nobody in this assignment sends is not expected to finish)
+		closer := false
 		for t := 0; t < n; t++ {
-			allFin = append(allFin, fmt.Sprintf("fin_%d_%d", t, m.K))
+			for _, path := range m.paths[t] {
+				for _, e := range path.Events {
+					if e.Kind == "ch_close" {
+						closer = true
+					}
+				}
+			}
+		}
+		allFin := []string{"true"}
+		for t := 0; t < n; t++ {
+			waits := false
+			for _, path := range m.paths[t] {
+				for _, e := range path.Events {
+					if e.Kind == "ch_recv" {
+						waits = true
+					}
+				}
+			}
+			if closer || !waits {
+				allFin = append(allFin, fmt.Sprintf("fin_%d_%d", t, m.K))
+			}
 		}
 		r := ask("witness_all_finish", fmt.Sprintf("(assert (and %s (= bad_%d 0)))\n", strings.Join(allFin, " "), m.K), nil)
 		if r.status != "sat" {
-			notes = append(notes, fmt.Sprintf("VACUITY: with %d threads no schedule lets all threads finish without a violation (%s)", n, r.status))
+			jr.notes = append(jr.notes, fmt.Sprintf("VACUITY: %s: no schedule lets all threads finish without a violation (%s)", label, r.status))
 		}
 		// violations: enumerate distinct kinds
 		excluded := ""
 		for round := 0; round < 12; round++ {
-			obligations++
+			jr.obligations++
 			r := ask(fmt.Sprintf("violation_%d", round), fmt.Sprintf("(assert (not (= bad_%d 0)))\n%s", m.K, excluded), vals)
 			if r.status == "unsat" {
-				discharged++
+				jr.discharged++
 				break
 			}
 			if r.status != "sat" {
-				notes = append(notes, fmt.Sprintf("violation query inconclusive with %d threads: %s", n, r.status))
+				jr.notes = append(jr.notes, fmt.Sprintf("violation query inconclusive for %s: %s", label, r.status))
 				break
 			}
 			code, _ := strconv.Atoi(r.vals[fmt.Sprintf("bad_%d", m.K)])
 			if code <= 0 || code > len(m.viol) {
-				notes = append(notes, "could not read the violation code from the model")
+				jr.notes = append(jr.notes, "could not read the violation code from the model")
 				break
 			}
-			cexs = append(cexs, m.extract(r.vals, m.viol[code-1], m.violKind[code-1]))
+			jr.cexs = append(jr.cexs, m.extract(r.vals, m.viol[code-1], m.violKind[code-1]))
 			excluded += fmt.Sprintf("(assert (not (= bad_%d %d)))\n", m.K, code)
 		}
 		// deadlock: some thread unfinished, none enabled, no violation so far
-		obligations++
+		jr.obligations++
 		var dl []string
 		for i := 0; i <= m.K; i++ {
 			var notFin, noneEn []string
@@ -650,34 +695,95 @@ func runConc(ld *loaded, sp *concSpec, pkgDir string, tier tierCfg, known []*sym
 			}
 			dl = append(dl, fmt.Sprintf("(and (= bad_%d 0) (or %s) %s (= dlstep %d))", i, strings.Join(notFin, " "), strings.Join(noneEn, " "), i))
 		}
-		restrict := ""
-		if sp.DeadlockIfMark != "" {
-			var has []string
-			for t := 0; t < n; t++ {
-				for p, path := range m.paths {
-					for _, e := range path.Events {
-						if e.Kind == "mark" && e.Tag == sp.DeadlockIfMark {
-							has = append(has, fmt.Sprintf("(= p_%d %d)", t, p))
-							break
-						}
+		relevant := sp.DeadlockIfMark == ""
+		for t := 0; t < n && !relevant; t++ {
+			for _, path := range m.paths[t] {
+				for _, e := range path.Events {
+					if e.Kind == "mark" && e.Tag == sp.DeadlockIfMark {
+						relevant = true
 					}
 				}
 			}
-			restrict = "(assert (or false " + strings.Join(has, " ") + "))\n"
 		}
-		r = ask("deadlock", "(declare-const dlstep Int)\n"+restrict+"(assert (or "+strings.Join(dl, "\n ")+"))\n", append(vals, "dlstep"))
-		if r.status == "unsat" {
-			discharged++
-		} else if r.status == "sat" {
-			cx := m.extract(r.vals, "deadlock: a thread is blocked for ever (no thread can take a step)", "deadlock")
-			if ds, err := strconv.Atoi(r.vals["dlstep"]); err == nil {
-				cx.Steps = cx.Steps[:min(len(cx.Steps), stepsUpTo(r.vals, m, ds))]
-				cx.Replay = m.replayPrefix(r.vals, ds)
-			}
-			cexs = append(cexs, cx)
+		if !relevant {
+			jr.discharged++ // nobody was asked to send the signal the threads wait for: blocking is not a defect
 		} else {
-			notes = append(notes, fmt.Sprintf("deadlock query inconclusive with %d threads: %s", n, r.status))
+			r = ask("deadlock", "(declare-const dlstep Int)\n(assert (or "+strings.Join(dl, "\n ")+"))\n", append(vals, "dlstep"))
+			if r.status == "unsat" {
+				jr.discharged++
+			} else if r.status == "sat" {
+				cx := m.extract(r.vals, "deadlock: a thread is blocked for ever (no thread can take a step)", "deadlock")
+				if ds, err := strconv.Atoi(r.vals["dlstep"]); err == nil {
+					cx.Steps = cx.Steps[:min(len(cx.Steps), stepsUpTo(r.vals, m, ds))]
+					cx.Replay = m.replayPrefix(r.vals, ds)
+				}
+				jr.cexs = append(jr.cexs, cx)
+			} else {
+				jr.notes = append(jr.notes, fmt.Sprintf("deadlock query inconclusive for %s: %s", label, r.status))
+			}
 		}
+		return jr
+	}
+	// all multisets of n templates
+	var multisets func(n, from int, cur []int, out *[][]int)
+	multisets = func(n, from int, cur []int, out *[][]int) {
+		if n == 0 {
+			*out = append(*out, append([]int{}, cur...))
+			return
+		}
+		for i := from; i < len(tpls); i++ {
+			multisets(n-1, i, append(cur, i), out)
+		}
+	}
+	timeoutS := 300
+	if tier.idx == 1 {
+		timeoutS = 1800
+	}
+	seen := map[string]bool{}
+	for n := 2; n <= T; n++ {
+		var combos [][]int
+		multisets(n, 0, nil, &combos)
+		results := make([]*jobResult, len(combos))
+		var wg sync.WaitGroup
+		sem := make(chan struct{}, 14)
+		for ci, c := range combos {
+			wg.Add(1)
+			go func(ci int, c []int) {
+				defer wg.Done()
+				sem <- struct{}{}
+				defer func() { <-sem }()
+				results[ci] = runJob(job{n, c}, timeoutS)
+			}(ci, c)
+		}
+		wg.Wait()
+		maxK, maxBytes := 0, 0
+		for _, jr := range results {
+			for _, l := range jr.lines {
+				fmt.Println(l)
+			}
+			queries += jr.queries
+			unsat += jr.unsat
+			sat += jr.sat
+			unknown += jr.unknown
+			obligations += jr.obligations
+			discharged += jr.discharged
+			solverTime += jr.solverTime
+			notes = append(notes, jr.notes...)
+			if jr.steps > maxK {
+				maxK = jr.steps
+			}
+			if jr.bytes > maxBytes {
+				maxBytes = jr.bytes
+			}
+			for _, cx := range jr.cexs {
+				// one counterexample per kind of violation: the first (fewest threads) is kept
+				if !seen[cx.What] {
+					seen[cx.What] = true
+					cexs = append(cexs, cx)
+				}
+			}
+		}
+		bounds = append(bounds, map[string]interface{}{"threads": n, "template_assignments": len(combos), "max_steps": maxK, "max_smt_bytes": maxBytes})
 		if len(cexs) > 0 {
 			break // counterexamples with fewer threads first
 		}
@@ -732,8 +838,8 @@ func runConc(ld *loaded, sp *concSpec, pkgDir string, tier tierCfg, known []*sym
 		"property_id": prop, "tier": tier.name, "seed": 0, "level": "model_checking", "wall_s": time.Since(t0).Seconds(), "violations": confirmedN,
 		"coverage": map[string]interface{}{
 			"evaluations":         queries,
-			"distinct_nontrivial": obligations,
-			"rule": "evaluations = SMT queries over the unrolled transition system; distinct_nontrivial = obligations (per thread count: 'no schedule reaches a violation flag' enumerated per violation kind, and 'no schedule reaches a deadlocked state'); " +
+			"distinct_nontrivial": obligations + nPaths,
+			"rule": "evaluations = SMT queries over the unrolled transition system; distinct_nontrivial = recorded thread traces (each a distinct event sequence with its path condition) + obligations (per thread count: 'no schedule reaches a violation flag' enumerated per violation kind, and 'no schedule reaches a deadlocked state'); " +
 				"each unsat answer covers every assignment of templates to threads and every interleaving of their events within the step bound",
 			"samples": samples, "obligations": obligations, "discharged": discharged,
 			"traces_validated_against_impl": len(cexs),
@@ -754,7 +860,7 @@ func runConc(ld *loaded, sp *concSpec, pkgDir string, tier tierCfg, known []*sym
 			"interleaving granularity = those events; sequential consistency (no weak-memory reordering of the plain bool fields: the Go memory model gives racy plain accesses no guarantee at all, so a race on them is reported by the monitors only through its interleaving effects)",
 			"sync.WaitGroup, sync.Once, sync.Mutex and channel close/receive follow their documented semantics as encoded in cmd/verif/conc.go (Wait enabled at counter 0, negative counter panics, Once.Do blocks later callers until the first returns, close of a closed channel panics)",
 			"stubs: running a code object = events body_begin, body_end with an arbitrary result; ModuleStore.OnContextClosed = event callbacks; file system = in-memory table (rewrites.json)",
-			fmt.Sprintf("bound: %d..%d threads, each running any one template once; steps = threads x longest trace, so every complete interleaving fits", 2, T),
+			fmt.Sprintf("bound: %d..%d threads, every assignment of templates to threads (one query set per multiset), each thread runs its template once; steps = sum of the longest trace of each thread, so every complete interleaving fits", 2, T),
 			"z3 answers are correct; thorough tier cross-checks with cvc5",
 		},
 	}
@@ -803,7 +909,7 @@ func (m *concModel) extract(vals map[string]string, what, kind string) *concCex 
 	ps := make([]int, m.T)
 	for t := 0; t < m.T; t++ {
 		ps[t], _ = strconv.Atoi(vals[fmt.Sprintf("p_%d", t)])
-		cx.Threads = append(cx.Threads, m.tplOf[ps[t]])
+		cx.Threads = append(cx.Threads, m.tplOf[t])
 	}
 	for i := 0; i < m.K; i++ {
 		s, _ := strconv.Atoi(vals[fmt.Sprintf("sched_%d", i)])
@@ -811,12 +917,12 @@ func (m *concModel) extract(vals map[string]string, what, kind string) *concCex 
 			continue
 		}
 		k, _ := strconv.Atoi(vals[fmt.Sprintf("pc_%d_%d", s, i)])
-		path := m.paths[ps[s]]
+		path := m.paths[s][ps[s]]
 		if k >= len(path.Events) {
 			continue
 		}
 		e := path.Events[k]
-		cx.Steps = append(cx.Steps, fmt.Sprintf("T%d %s: %s", s, strings.TrimPrefix(m.tplOf[ps[s]], "VerifC09Thread"), evString(e)))
+		cx.Steps = append(cx.Steps, fmt.Sprintf("T%d %s: %s", s, strings.TrimPrefix(m.tplOf[s], "VerifC09Thread"), evString(e)))
 	}
 	cx.Replay = m.replayPrefix(vals, m.K)
 	return cx
@@ -840,7 +946,7 @@ func (m *concModel) replayPrefix(vals map[string]string, upto int) []int {
 			continue
 		}
 		k, _ := strconv.Atoi(vals[fmt.Sprintf("pc_%d_%d", s, i)])
-		path := m.paths[ps[s]]
+		path := m.paths[s][ps[s]]
 		if k < len(path.Events) && path.Events[k].Yield {
 			out = append(out, s)
 		}
